@@ -173,7 +173,7 @@ fn judge(obs: Obs, exp: &[Px], w: usize, mismatch_sig: &str, what: &str, case: &
 // ---------------------------------------------------------------------------------------
 // families
 
-const FAMILIES: [&str; 11] = ["pos", "val16", "val8", "rgb5a3", "ci8val", "pal", "etc-alpha", "etc-oor", "etc-grid", "rand", "poisoned"];
+const FAMILIES: [&str; 12] = ["pos", "val16", "val8", "rgb5a3", "ci8val", "pal", "etc-alpha", "etc-oor", "etc-grid", "rand", "pattern", "poisoned"];
 
 /// Families whose expected output is not pinned to exact bytes in every channel (tolerance or
 /// open outcomes): their outputs are additionally compared between the two builds.
@@ -216,6 +216,7 @@ fn chunk_count(tier: Tier, fam: &str) -> u64 {
         "etc-alpha" => 1,
         "poisoned" => 4,
         "rand" => 9 * pos_sizes(tier).len() as u64 * rand_seeds(tier),
+        "pattern" => 9 * PATTERNS.len() as u64 * 3,
         _ => 0,
     }
 }
@@ -792,6 +793,40 @@ fn run_rand(tier: Tier, chunk: u64, t: &mut Tally, hashes: &mut Vec<Option<u64>>
     }
 }
 
+/// Structured payloads: constant bytes (all 0x00, all 0xFF, all 0x80), and byte patterns of period
+/// 2, 3, 4, 8 and 16 (alternating texels, repeated 2x2 quads, stripes) — a decoder that takes a
+/// short cut for "flat" tiles, memoises the previous texel or treats a sentinel value specially
+/// meets its special case here and never in pseudo-random or index-revealing payloads.
+const PATTERNS: [&[u8]; 12] = [&[0x00], &[0xFF], &[0x80], &[0x12, 0xEF], &[0xFF, 0x00], &[0x10, 0x20, 0x30], &[0xA1, 0xB2, 0xC3, 0xD4], &[0xFF, 0xFF, 0xFF, 0xFF, 0x00, 0x00, 0x00, 0x00], &[1, 2, 3, 4, 5, 6, 7, 8], &[0xFF, 0xFF, 0xFF, 0xFF, 1, 2, 3, 4, 5, 6, 7, 8, 9, 10, 11, 12], &[0x00, 0x00, 0x00, 0x00, 0xFF, 0xFF, 0xFF, 0xFF, 0x80, 0x80, 0x80, 0x80, 0x7F, 0x7F, 0x7F, 0x7F], &[0xF0, 0x0F]];
+
+fn run_pattern(chunk: u64, t: &mut Tally, hashes: &mut Vec<Option<u64>>) {
+    let fmt = Fmt::ALL[(chunk % 9) as usize];
+    let pat = PATTERNS[(chunk / 9) as usize % PATTERNS.len()];
+    let (w, h) = [(8usize, 8usize), (16, 8), (32, 16)][(chunk / (9 * PATTERNS.len() as u64)) as usize % 3];
+    let len = fmt.payload_len(w, h);
+    let mut payload: Vec<u8> = (0..len).map(|i| pat[i % pat.len()]).collect();
+    if fmt.is_etc() {
+        // keep ETC colour words inside the defined range: individual mode (diff bit clear)
+        let block = if fmt == Fmt::Etc1A4 { 16 } else { 8 };
+        for b in payload.chunks_mut(block) {
+            let off = block - 8;
+            b[off + 4] &= !0x02;
+        }
+    }
+    let exp = rp::decode_3ds(fmt, w, h, &payload).expect("exact size");
+    if exp.undefined_blocks > 0 {
+        return;
+    }
+    let case = case_of("pattern", chunk);
+    for &route in routes_for(fmt) {
+        t.cases += 1;
+        t.nontrivial += nontrivial(&exp.px) as u64;
+        t.class_n(&format!("pattern:{}", fmt.name()), 1);
+        let what = format!("{} {}x{} payload of repeated bytes {:02x?} via {:?}", fmt.name(), w, h, pat, route);
+        hashes.push(judge(observe_3ds(route, fmt, w, h, &payload), &exp.px, w, &format!("pixel-pattern:{}", fmt.name()), &what, &case, t));
+    }
+}
+
 /// Run one chunk; returns the hashes of the outputs of its calls (for the cross-build pass).
 fn run_chunk(tier: Tier, fam: &str, chunk: u64, t: &mut Tally) -> Vec<Option<u64>> {
     let mut h = Vec::new();
@@ -806,6 +841,7 @@ fn run_chunk(tier: Tier, fam: &str, chunk: u64, t: &mut Tally) -> Vec<Option<u64
         "etc-oor" => run_etc_oor(chunk, t, &mut h),
         "etc-alpha" => run_etc_alpha(t, &mut h),
         "rand" => run_rand(tier, chunk, t, &mut h),
+        "pattern" => run_pattern(chunk, t, &mut h),
         "poisoned" => {
             // state carried between calls: a fixed series of failing calls right before a cheap family
             props::poison::failing_calls();
